@@ -48,6 +48,6 @@ Proof. exact @history_inv. Qed.
 Theorem c16_model_check_spec_check : forall c : case, model_check c = true -> spec_check c = true.
 Proof. exact model_check_spec_check16. Qed.
 
-(** PARTIAL (as c16_height_partial): the tighter bound of the implementation-level search, 3*log2(n+1)+12 (for independent uniform priorities a larger height has probability < 3e-6 for n <= 2^21), holds on the model with the modelled generator (seed 42) for six families - sorted appends, front inserts, insert + split-and-swap rotation, alternating ends, middle inserts, merge-building from one-node treaps on alternating sides - with n = 2^k, k <= 13; the trees are heap-ordered and have n nodes. Missing: other n, other families, other seeds *)
-Theorem c16_height_tight_partial : forall k : Z, 0 <= k <= 13 -> let n := 2 ^ k in Forall (fun step => height (fam step n) <= 3 * Z.log2 (n + 1) + 12 /\ Heap (fam step n) /\ tsize isize (fam step n) = n) [step_append; step_front; step_rotate; step_deque; step_middle; step_mergebuild].
+(** PARTIAL (as c16_height_partial): the tighter bound of the implementation-level search, 3*log2(n+1)+12 (for independent uniform priorities a larger height has probability < 3e-6 for n <= 2^21), holds on the model with the modelled generator (seed 42) for six families - sorted appends, front inserts, insert + split-and-swap rotation, alternating ends, middle inserts, merge-building from one-node treaps on alternating sides - with n = 2^k, k <= 10 (the independent re-check by coqchk evaluates this without the VM, about 25 times slower); the trees are heap-ordered and have n nodes. Missing: other n, other families, other seeds *)
+Theorem c16_height_tight_partial : forall k : Z, 0 <= k <= 10 -> let n := 2 ^ k in Forall (fun step => height (fam step n) <= 3 * Z.log2 (n + 1) + 12 /\ Heap (fam step n) /\ tsize isize (fam step n) = n) [step_append; step_front; step_rotate; step_deque; step_middle; step_mergebuild].
 Proof. exact height_tight_partial. Qed.
